@@ -235,6 +235,12 @@ def run_session(case):
                         wire = m["verb_get"].encode() + b" " + m["submit_uri"].encode() + b" HTTP/1.1\r\nHost: x\r\n\r\nbody"
                 else:
                     wire = b"OPTIONS * HTTP/1.1\r\nHost: x\r\n\r\n"
+                # "unrelated" by the statement's routing rule: neither (get verb, get-URI prefix) nor (post verb, submit-URI prefix)
+                meth, target = wire.split(b" ")[0:2]
+                if (meth == m["verb_get"].encode() and any(target.startswith(u.encode()) for u in m["uris"])) or (
+                    meth == m["verb_post"].encode() and target.startswith(m["submit_uri"].encode())
+                ):
+                    wire = b"PUT " + target + b" HTTP/1.1\r\nHost: x\r\n\r\n"
                 trace.append(("request", wire, "unrelated"))
     finally:
         cl.httpx = real_httpx
